@@ -180,6 +180,16 @@ func c08SkipsExist(prog e3Spec, ss map[string]string) bool {
 }
 
 func runC08(tier, scratch, replay string, nworkers int) *merged {
+	return runC08Mode(tier, scratch, replay, nworkers, "C08")
+}
+
+// runC07E3 is the E3 twin of C07: the same cells, but the oracle looks at the tests
+// that DID run: nothing they addressed in this run may be removed, altered or listed.
+func runC07E3(tier, scratch, replay string, nworkers int) *merged {
+	return runC08Mode(tier, scratch, replay, nworkers, "C07")
+}
+
+func runC08Mode(tier, scratch, replay string, nworkers int, mode string) *merged {
 	m := newMerged()
 	m.rule = "programs of the fixed E3 module (default-named, custom-named/extension/standalone, sole-owner files) x every set of <=2 tests calling snaps.Skip/Skipf/SkipNow x 25 -run patterns x Clean mode {report, clean} x sort; " +
 		"each cell is one run of the real test binary; protected = declared tests whose Match* calls the trace shows did not run; non-trivial = distinct cells with a filter or a skip"
@@ -248,6 +258,24 @@ func runC08(tier, scratch, replay string, nworkers int) *merged {
 							cells = append(cells, c08Cell{Program: pn, Skips: ss, Run: pat, Env: env, Sort: srt, Count: 1})
 							if tier == "thorough" && !srt && (pi+si)%2 == 0 {
 								cells = append(cells, c08Cell{Program: pn, Skips: ss, Run: pat, Env: env, Count: 2})
+							}
+						}
+					}
+				}
+			}
+		}
+		if mode == "C07" {
+			// the C07 twin: fewer patterns, but -count 1..3 and every Clean mode
+			cells = nil
+			for _, pn := range pnames {
+				for _, pat := range []string{"", "TestA", "^TestA$", "TestA/x", "B", "Sub|TestB", "."} {
+					for _, cnt := range []int{1, 2, 3} {
+						for _, env := range []string{"clean", "true", ""} {
+							for _, srt := range []bool{false, true} {
+								if tier == "quick" && srt && cnt == 2 {
+									continue
+								}
+								cells = append(cells, c08Cell{Program: pn, Run: pat, Env: env, Sort: srt, Count: cnt})
 							}
 						}
 					}
@@ -401,6 +429,49 @@ func runC08(tier, scratch, replay string, nworkers int) *merged {
 				return "K4-file-skip-derives-source-name-from-snapshot-name"
 			}
 			return ""
+		}
+		if mode == "C07" {
+			// every test whose calls ran in this process: what it addressed survives Clean, unlisted
+			for _, name := range declared {
+				if !ranCalls[name] {
+					continue
+				}
+				for _, fe := range r.owned.entries[name] {
+					parts := strings.SplitN(fe, "\x00", 2)
+					file, id := parts[0], parts[1]
+					es, _ := e3Parse(after[file])
+					var body *string
+					for i := range es {
+						if es[i].ID == id {
+							body = &es[i].Body
+						}
+					}
+					orig, _ := e3Parse(r.tree[file])
+					var was string
+					for _, e := range orig {
+						if e.ID == id {
+							was = e.Body
+						}
+					}
+					switch {
+					case body == nil:
+						m.viol("", fmt.Sprintf("E3: test %s ran and matched [%s] in this process (-count %d, -run %q); the entry is gone after Clean (summary %v)", name, id, cnt, cell.Run, sum.obsTests), cell)
+					case *body != was:
+						m.viol("", fmt.Sprintf("E3: entry [%s] matched in this run was altered by Clean: %q -> %q", id, was, *body), cell)
+					case listedTest[id]:
+						m.viol("", fmt.Sprintf("E3: entry [%s] matched in this run is listed obsolete", id), cell)
+					}
+				}
+				for _, file := range r.owned.files[name] {
+					if after[file] != r.tree[file] || listedFile[file] {
+						m.viol("", fmt.Sprintf("E3: standalone file %s matched in this run (test %s) was removed/altered/listed by Clean (listed=%v)", file, name, listedFile[file]), cell)
+					}
+				}
+			}
+			if res.exit != 0 {
+				m.viol("", fmt.Sprintf("E3: the run itself failed: %s", tail(res.stdout, 400)), cell)
+			}
+			return
 		}
 		for _, name := range protected {
 			for _, fe := range r.owned.entries[name] {
